@@ -94,10 +94,15 @@ def run_case(case, ctx):
 
     # ------------------------------------------------------------------ axes
     for atype in ("complete", "upper-half"):
-        for sc in ("natural", "arbitrary"):
+        for sc in ("natural", "arbitrary", "scaled"):
             dt = r3(rng.uniform(0.05, 10.0))
+            # "scaled": the same on another scale of the variable (steps from 1e-12 to 1e8): nothing in the statement is tied to femtoseconds
+            q = float(10.0 ** int(rng.integers(-12, 9))) if sc == "scaled" else 1.0
+            dt = float("%.3g" % (dt * q))
             if sc == "natural":
                 start = -(N // 2) * dt if atype == "complete" else 0.0
+            elif sc == "scaled":
+                start = float("%.3g" % (rng.uniform(-4.0, 4.0) * dt))
             else:
                 start = r3(rng.uniform(-50.0, 50.0))
             det = {"N": N, "atype": atype, "start": start, "step": dt, "direction": "time-first"}
@@ -123,9 +128,11 @@ def run_case(case, ctx):
             # frequency-first
             if atype == "upper-half" and N % 2 == 1:
                 continue
-            dw = r3(rng.uniform(0.001, 1.0))
+            dw = float("%.3g" % (rng.uniform(0.001, 1.0) / q))
             if sc == "natural":
                 wstart = -(N // 2) * dw
+            elif sc == "scaled":
+                wstart = float("%.3g" % (rng.uniform(-4.0, 4.0) * dw))
             else:
                 wstart = r3(rng.uniform(-5.0, 5.0))
             det = {"N": N, "atype": atype, "start": wstart, "step": dw, "direction": "frequency-first"}
